@@ -63,6 +63,8 @@ type Scenario struct {
 	PreRuns  int                    `json:"pre_runs,omitempty"`  // … this many times
 	Cancel   bool                   `json:"cancel,omitempty"`    // long-running program: api trials only, with RunContext calls cancelled / timing out mid-run (cancel.go)
 	API      bool                   `json:"api,omitempty"`       // the program re-initialises everything it accumulates in its inputs: the api stream applies although Vars are given
+	SetVars  map[string]interface{} `json:"set_vars,omitempty"`  // round 8: Compiled.Set on the ORIGINAL after Compile, before anything is cloned (declared by Add(name, nil) first)
+	Chain    bool                   `json:"chain,omitempty"`     // round 8: clone i (i > 0) is taken from clone i-1, not from the original (clone of a clone of …)
 }
 
 // Trial: one concurrent execution of a scenario.
@@ -144,6 +146,9 @@ func normVal(v interface{}) interface{} {
 			}
 			return nil
 		}
+		if o, ok := taggedVal(x); ok { // round 8 (deep.go): {"__err": v}, {"__bytes": "…"}, {"__box": n}
+			return o
+		}
 		out := map[string]interface{}{}
 		for k, e := range x {
 			out[k] = normVal(e)
@@ -170,6 +175,14 @@ func prepare(sc Scenario) (*tengo.Compiled, error) {
 	if sc.IDVar != "" {
 		_ = s.Add(sc.IDVar, int64(0))
 	}
+	setNames := make([]string, 0, len(sc.SetVars))
+	for n := range sc.SetVars {
+		setNames = append(setNames, n)
+		if _, ok := sc.Vars[n]; !ok {
+			_ = s.Add(n, nil)
+		}
+	}
+	sort.Strings(setNames)
 	mm := stdlib.GetModuleMap(sc.Stdlib...)
 	for n, src := range sc.SrcMods {
 		mm.AddSourceModule(n, []byte(src))
@@ -178,7 +191,16 @@ func prepare(sc Scenario) (*tengo.Compiled, error) {
 		mm.AddBuiltinModule("mod", map[string]tengo.Object{"id": &tengo.Int{Value: 7}, "tag": &tengo.Int{Value: 1}})
 	}
 	s.SetImports(mm)
-	return s.Compile()
+	c, err := s.Compile()
+	if err != nil {
+		return nil, err
+	}
+	for _, n := range setNames {
+		if err := c.Set(n, normVal(sc.SetVars[n])); err != nil {
+			return nil, err
+		}
+	}
+	return c, nil
 }
 
 func idOf(i int) int64 { return int64(100 + 7*i) }
@@ -468,7 +490,11 @@ func cloneTrial(t Trial, so soloRes) {
 	mark("trial", t)
 	cl := make([]*tengo.Compiled, t.K)
 	for i := range cl {
-		cl[i] = orig.Clone()
+		from := orig
+		if sc.Chain && i > 0 {
+			from = cl[i-1] // clone of a clone: taken before anything ran
+		}
+		cl[i] = from.Clone()
 		configure(cl[i], sc, i)
 	}
 	outs := make([]string, t.K)
@@ -887,7 +913,7 @@ func runScenario(sc Scenario, r *lib.RNG, reps int, ks []int) {
 			res.Dist("clone-run-fails")
 		}
 	}
-	if len(sc.Vars) > 0 && !sc.API {
+	if (len(sc.Vars) > 0 || len(sc.SetVars) > 0) && !sc.API {
 		return // api stream: programs whose state is a function of the last Set only (no accumulating inputs)
 	}
 	for rep := 0; rep < (reps+1)/2; rep++ {
@@ -1423,6 +1449,33 @@ func mainLoop(rng *lib.RNG, start int) {
 		}
 		idx++
 	}
+	// round 8 (deep.go): state reached through values whose Copy must be deep. After everything else: the scenario
+	// sequence of a seed up to here is the one it always was.
+	t8 := time.Now()
+	for _, sc := range deepScenarios(flags.Seed) {
+		r := rng.Fork()
+		if idx >= start {
+			curIndex = idx
+			ks, n := []int{2, 4, 8}, reps
+			if raceEnabled && !flags.Thorough() {
+				ks, n = []int{2}, 1 // two clones suffice for a report; a run costs ~40 ms under -race
+			}
+			runScenario(sc, r, n, ks)
+			res.Dist("targeted:" + sc.Name)
+			flushWorker()
+		}
+		idx++
+	}
+	{
+		r := rng.Fork()
+		if idx >= start && !raceEnabled {
+			curIndex = idx
+			aliasSearch(r, flags.Scale(300, 3000))
+			flushWorker()
+		}
+		idx++
+	}
+	res.Extra["t_deep_copy_s"] = time.Since(t8).Seconds()
 	res.Extra["t_solo_s"], res.Extra["t_clones_s"], res.Extra["t_api_s"] = tSolo.Seconds(), tClone.Seconds(), tApi.Seconds()
 }
 
@@ -1433,7 +1486,7 @@ func main() {
 	flags = lib.ParseFlags()
 	if *show {
 		res = lib.NewResult("C08", flags)
-		for _, sc := range append(targeted(), targetedLate()...) {
+		for _, sc := range append(append(targeted(), targetedLate()...), deepScenarios(flags.Seed)...) {
 			so := solo(sc, 2)
 			fmt.Printf("%s: err=%v unstable=%v touches=%v\n  orig: %s\n  c0: %s\n  c1: %s\n", sc.Name, so.err, so.unstable, so.touches, so.orig, so.clone[0], so.clone[1])
 		}
